@@ -141,10 +141,24 @@ class Reaction(Object):
             )
         forward_variable = self.forward_variable
         reverse_variable = self.reverse_variable
+        old_id = self._id
         self._id = value
+        try:
+            for name in (self.id, self.reverse_id):
+                if name in self.model.variables:
+                    raise ValueError(
+                        f"The solver already has a variable named '{name}'."
+                    )
+            # raises a ValueError for an identifier that is no valid variable name
+            forward_variable.name = self.id
+            reverse_variable.name = self.reverse_id
+        except Exception:
+            # leave everything as it was
+            self._id = old_id
+            if forward_variable.name != self.id:
+                forward_variable.name = self.id
+            raise
         self.model.reactions._generate_index()
-        forward_variable.name = self.id
-        reverse_variable.name = self.reverse_id
 
     @property
     def reverse_id(self) -> str:
